@@ -98,7 +98,7 @@ theorem HeapOnly.of_pure {α} (m : M α) (h : ∀ st, m st = ((m default).1, st)
 
 theorem intOp_pure (op x y sp) : ∀ st, intOp op x y sp st = ((intOp op x y sp default).1, st) := by
   intro st
-  cases op <;> simp only [intOp] <;> (try rfl) <;> (split <;> (try rfl) <;> (split <;> rfl))
+  cases op <;> simp only [intOp] <;> repeat (first | rfl | split)
 
 theorem floatOp_pure (op x y sp) : ∀ st, floatOp op x y sp st = ((floatOp op x y sp default).1, st) := by
   intro st
